@@ -238,6 +238,12 @@ func genXport(r *rng, seed uint64, focus, arm string) *plan.Plan {
 					// an error, not some message
 					t.Acts = []plan.UpAction{{Kind: "truncate_udp", DelayUs: r.i64(50, 5000), Arg: r.intn(4)}, {Kind: []string{"fin", "rst", "silent", "half_frame"}[r.intn(4)], DelayUs: r.i64(50, 20_000), Arg: r.intn(40)}}
 				}
+			case 6:
+				if kind == "udp" {
+					// truncated over UDP, answered over TCP: the caller gets the TCP
+					// answer under its own id
+					t.Acts = []plan.UpAction{{Kind: "truncate_udp", DelayUs: r.i64(50, 5000), Arg: r.intn(4)}, {Kind: "reply", DelayUs: r.i64(50, 20_000)}}
+				}
 			case 4:
 				// the answer cut short (its counts promise more than follows):
 				// what lies behind it in the read buffer is not part of it
@@ -261,6 +267,12 @@ func genXport(r *rng, seed uint64, focus, arm string) *plan.Plan {
 				act.Arg = r.intn(40)
 			case 3:
 				act.Kind = "silent"
+			case 4:
+				// one reply per query, but this one is a frame too short to be a
+				// message (its body may look like frames of its own); the proper
+				// answer follows on the retry
+				act.Kind = "garbage"
+				act.Raw = [][]byte{{0, 0}, {0, 2, 0, 0}, {0, 1, 0}, {0, 0, 0, 0, 0, 0}, r.bytes(r.rng(1, 11))}[r.intn(5)]
 			}
 		case "C16":
 			if r.p(0.6) {
@@ -318,6 +330,33 @@ func genXport(r *rng, seed uint64, focus, arm string) *plan.Plan {
 		// the TCP leg's pooled connection goes stale between two truncated replies
 		for n := r.intn(4); n > 0; n-- {
 			xp.ServerEvents = append(xp.ServerEvents, plan.ServerEvent{Up: r.intn(nu), AtUs: r.i64(1000, span), Kind: "close_idle_conns"})
+		}
+	}
+	if focus == "C14" && r.p(0.2) {
+		// a udp server that is gone for a few seconds, with "port unreachable"
+		// coming back for every datagram: exchanges during that time fail at once
+		for ui, u := range xp.Upstreams {
+			if u.Kind != "udp" {
+				continue
+			}
+			xp.Net.ICMP = true
+			xp.Net.UpDrop, xp.Net.UpDup = 0, 0
+			at := r.i64(5_000, span)
+			down := r.rng(3000, 9000)
+			var keep []plan.ServerEvent
+			for _, e := range xp.ServerEvents {
+				if e.Up != ui {
+					keep = append(keep, e)
+				}
+			}
+			xp.ServerEvents = append(keep, plan.ServerEvent{Up: ui, AtUs: at, Kind: "down", DownMs: down})
+			for n := r.rng(2, 5); n > 0; n-- {
+				i := len(xp.Calls)
+				tok := fmt.Sprintf("t%d", i)
+				xp.Tokens[tok] = &plan.TokenSpec{Ans: plan.AnswerSpec{NAn: 1, TTLs: []uint32{300}, Shape: "plain"}, Acts: []plan.UpAction{{Kind: "reply", DelayUs: r.i64(50, 5000)}}}
+				xp.Calls = append(xp.Calls, plan.XCall{Idx: i, Up: ui, AtUs: at + r.i64(20_000, int64(down)*1000-2_100_000), ID: uint16(r.u64()), Token: tok, Type: 1, DeadlineUs: []int64{3_000_000, 5_000_000, 6_000_000}[r.intn(3)]})
+			}
+			break
 		}
 	}
 	if focus == "C14" && arm == "faults" {
